@@ -13,6 +13,7 @@
 import KiraModel.Proofs.TransportLemmas
 import KiraModel.Proofs.StaticLemmas
 import KiraModel.Proofs.LifecycleLemmas
+import KiraModel.Proofs.GenAgreeSound
 
 namespace K
 open Transport
@@ -566,15 +567,21 @@ theorem C04_reported_position (s s' : StaticSound ℝ) (hsr : 0 < s.sampleRate) 
 /-! ### degenerate loop regions: unreachable since the repair (`C04_transport_loop_never_degenerate`);
     what the wrap loops would do with one, kept as statements about the model -/
 
-/-- **empty loop region**: once the play head reaches an empty region `(a, a)` the increment loop never
-    exits (`position -= 0`): the model reports `hang`; kira's audio thread spins. -/
-theorem C04_fault_empty_loop_hangs (t : Transport) (n a : Nat) (hp : t.playing = true)
-    (hl : t.loopRegion = some (a, a)) (hpos : a ≤ t.position + 1) : t.increment n = .error .hang := by
+/-- **empty loop region**: were the play head ever to reach an empty region `(a, a)`, the modular wrap
+    would divide by zero (`% 0` panics; before the repair of the wrap loops `position -= 0` never ended:
+    `C04_old_loop_empty_region_hangs`).  Unreachable: `C04_transport_loop_never_degenerate`. -/
+theorem C04_fault_empty_loop_div_zero (t : Transport) (n a : Nat) (hp : t.playing = true)
+    (hl : t.loopRegion = some (a, a)) (hpos : a ≤ t.position + 1) : t.increment n = .error .panic := by
   unfold increment incWrap
   simp only [hp, hl, Bool.not_true, Bool.false_eq_true, if_false]
   unfold wrapDown
   have : ¬ t.position + 1 < a := by omega
   simp [this]
+
+/-- the loop the code used to run never exits on an empty region, for any fuel. -/
+theorem C04_old_loop_empty_region_hangs (fuel p a : Nat) (hpos : a ≤ p) : wrapDownLoop fuel p a a = .error .hang := by
+  have : ¬ p < a := by omega
+  cases fuel <;> simp [wrapDownLoop, this]
 
 /-- **inverted loop region** `(ls, le)` with `le < ls`: `loop_end - loop_start` underflows. -/
 theorem C04_fault_inverted_loop_overflows (t : Transport) (n ls le : Nat) (hp : t.playing = true)
@@ -585,6 +592,64 @@ theorem C04_fault_inverted_loop_overflows (t : Transport) (n ls le : Nat) (hp : 
   unfold wrapDown
   have : ¬ t.position + 1 < le := by omega
   simp [this, hinv]
+
+/-! ### the wrap into the loop region is constant-time modular arithmetic (repaired: it was three loops)
+
+  `seek_to(1e300)`, `seek_by(1e300)` or a start position of `1e300` seconds (anything that saturates at
+  `usize::MAX` frames) on a looping sound made `while position >= loop_end { position -= len }` run about
+  `usize::MAX / len` times — on the audio thread for seeks, in `play` for a start position.  The code now
+  computes `loop_start + (position - loop_start) % len` (and the two mirrored forms); the model mirrors
+  that and has NO fuel any more: `Transport.increment / decrement / seekTo` are closed-form for every
+  position, so every C04 theorem about them (`C04_transport_forward_loop … C04_transport_inv`,
+  `C04_seek_lands`, `C04_rate1_identity`, …) now speaks about code that takes constant time per step
+  whatever the position — before, the model's internal fuel `position + 1` hid a running time
+  proportional to the position. -/
+
+/-- **the repaired wraps equal the loops they replace, on every input on which the loop returns** (any
+    region — empty and inverted included —, any position, any fuel): whenever the old
+    `while p >= le { p -= le - ls }` / `while p <= ls { p += le - ls }` / `while p < ls { p += le - ls }`
+    returns a position, the modular arithmetic returns the same position. -/
+theorem C04_wrap_closed_form_eq_loop (fuel p ls le q : Nat) :
+    (wrapDownLoop fuel p ls le = .ok q → wrapDown p ls le = .ok q)
+      ∧ (wrapUpLoop fuel p (ls + 1) ls le = .ok q → wrapUpDec p ls le = .ok q)
+      ∧ (wrapUpLoop fuel p ls ls le = .ok q → wrapUpSeek p ls le = .ok q) :=
+  ⟨wrapDown_eq_loop fuel p ls le q, wrapUpDec_eq_loop fuel p ls le q, wrapUpSeek_eq_loop fuel p ls le q⟩
+
+/-- **and the loops did return on every non-empty region given fuel proportional to the position** (`p + 1`
+    iterations for the downward loop, `ls + 2` for the upward ones), always with the value the closed form
+    computes without any fuel — so on every transport state the code can be in (regions are non-empty:
+    `C04_transport_loop_never_degenerate`) the repair changes no result, only the running time. -/
+theorem C04_wrap_loop_terminates_with_closed_form (p ls le : Nat) (h : ls < le) :
+    wrapDownLoop (p + 1) p ls le = wrapDown p ls le
+      ∧ wrapUpLoop (ls + 2) p (ls + 1) ls le = wrapUpDec p ls le
+      ∧ wrapUpLoop (ls + 1) p ls ls le = wrapUpSeek p ls le := by
+  refine ⟨?_, ?_, ?_⟩
+  · rw [wrapDownLoop_spec ls le h _ _ (Nat.lt_succ_self _), wrapDown_ok p ls le h]
+  · rw [wrapUpLoop_spec ls le h _ _ _ (by omega), wrapUpDec_ok p ls le h]
+  · rw [wrapUpLoop_spec ls le h _ _ _ (by omega), wrapUpSeek_ok p ls le h]
+
+/-- **a seek or start position that saturates is harmless**: for ANY position `p` (think `usize::MAX`)
+    and any non-empty region the wrapped position is produced without iteration and lies inside the
+    region — `[ls, le)` going down or seeking, `(ls, le]` before `decrement_position`'s final `- 1`. -/
+theorem C04_wrap_lands_in_region (p ls le : Nat) (h : ls < le) :
+    (∃ q, wrapDown p ls le = .ok q ∧ q < le ∧ (le ≤ p → ls ≤ q))
+      ∧ (∃ q, wrapUpDec p ls le = .ok q ∧ ls < q ∧ (p ≤ ls → q ≤ le))
+      ∧ (∃ q, wrapUpSeek p ls le = .ok q ∧ ls ≤ q ∧ (p < ls → q < le)) := by
+  refine ⟨⟨_, wrapDown_ok p ls le h, wrapDownCF_lt p ls le h, fun hp => (wrapDownCF_range p ls le h hp).1⟩,
+    ⟨_, wrapUpDec_ok p ls le h, ?_, ?_⟩, ⟨_, wrapUpSeek_ok p ls le h, ?_, ?_⟩⟩
+  · by_cases hb : ls + 1 ≤ p
+    · simp [wrapUpCF, hb]; omega
+    · have := (wrapUpCF_range p (ls + 1) ls le h (by omega)).1; omega
+  · intro hp; have := (wrapUpCF_range p (ls + 1) ls le h (by omega)).2; omega
+  · by_cases hb : ls ≤ p
+    · simp [wrapUpCF, hb]
+    · exact (wrapUpCF_range p ls ls le h (by omega)).1
+  · intro hp; have := (wrapUpCF_range p ls ls le h hp).2; omega
+
+/-- non-vacuity / the reviewer's input: seeking a 100-frame sound that loops `[10, 50)` to frame
+    `usize::MAX` lands on frame 15 at once (the loop needed 461 168 601 842 738 790 iterations). -/
+example : (⟨0, some (10, 50), true⟩ : Transport).seekTo 18446744073709551615 100 = .ok ⟨15, some (10, 50), true⟩ := by
+  decide
 
 /-! ### repaired: what used to be outside the domain
 
